@@ -724,6 +724,8 @@ func main() {
 			if timedOut {
 				if v.Signature == "no-progress" || v.Signature == "hang" {
 					fails++ // the replay hangs again
+				} else {
+					break // a replay that hangs although the violation is not a hang: not reproducible, do not spend 5 x 150 s on it
 				}
 			} else if err != nil {
 				if ee, ok := err.(*exec.ExitError); ok && (ee.ExitCode() == 1 || (v.Signature == "process-crash" && ee.ExitCode() != 0)) {
